@@ -84,7 +84,10 @@ def frames():
     fshuf.index = [3, 5, 0, 1, 4, 2]  # integer labels that are a permutation of the positions
     fstr = f4.copy()
     fstr.index = ["r3", "r1", "r1", "r0"]  # non-unique string labels
-    return {"cross6": f6, "row1": f1, "rep4": f4, "absent-level": fabs, "shuffled-index": fshuf, "string-index": fstr}
+    fint = f6.copy()
+    fint["a"] = np.array([100, 100, 2, 3, 5, 7], dtype="int8")  # narrow integer dtypes: products and integer scalings leave their range
+    fint["b"] = np.array([100, 2, 2, 3, -100, 120], dtype="int8")
+    return {"cross6": f6, "row1": f1, "rep4": f4, "absent-level": fabs, "shuffled-index": fshuf, "string-index": fstr, "small-ints": fint}
 
 
 def universe(tier):
@@ -280,13 +283,16 @@ def subchecks(tier, seed):
             Sub("columns-two-parts", drv_parts, {"universe": U, "outputs": ["pandas", "sparse"], "frames": fr, "frame_names": ["cross6"]},
                 shard_depth=2, bounds={"shapes": ["T1 ~ T2", "T1 | T2"], "universe": len(U), "frames": ["cross6"], "outputs": ["pandas", "sparse"]}),
             Sub("columns-1term-allframes", drv, {"universe": U, "K": 1, "modes": ["string", "terms"], "outputs": ["pandas", "numpy", "sparse"],
-                                                 "frames": fr, "frame_names": list(fr), "materializers": ["pandas", "narwhals"]},
-                shard_depth=2, bounds={"max_terms": 1, "universe": len(U), "frames": list(fr)}),
+                                                 "frames": fr, "frame_names": [f for f in fr if f != "small-ints"], "materializers": ["pandas", "narwhals"]},
+                shard_depth=2, bounds={"max_terms": 1, "universe": len(U), "frames": [f for f in fr if f != "small-ints"]}),
+            Sub("columns-small-integer-dtypes", drv, {"universe": [("a", "b"), ("b", "a"), ("3", "a"), ("a", "3"), ("a", "A"), ("a",), ("b",), ("2.5", "a"), ("a", "b", "A")],
+                                                      "K": 1, "modes": ["string"], "outputs": ["pandas", "numpy", "sparse"], "frames": fr, "frame_names": ["small-ints"]},
+                shard_depth=2, bounds={"frame": "a: int8 [100,100,2,3,5,7], b: int8 [100,2,2,3,-100,120]", "terms": "products and integer scalings of them", "outputs": 3}),
         ]
     return [
         Sub("columns-2terms", drv, {"universe": U, "K": 2, "modes": ["string", "terms"], "outputs": ["pandas", "numpy", "sparse"],
-                                    "frames": fr, "frame_names": list(fr)},
-            shard_depth=2, bounds={"max_terms": 2, "universe": len(U), "frames": list(fr)}),
+                                    "frames": fr, "frame_names": [f for f in fr if f != "small-ints"]},
+            shard_depth=2, bounds={"max_terms": 2, "universe": len(U), "frames": [f for f in fr if f != "small-ints"]}),
         Sub("columns-2terms-narwhals", drv, {"universe": U, "K": 2, "modes": ["terms"], "outputs": ["pandas", "sparse"],
                                              "frames": fr, "frame_names": ["cross6"], "materializers": ["narwhals"]},
             shard_depth=2, bounds={"max_terms": 2, "universe": len(U), "materializer": "narwhals", "frames": ["cross6"]}),
